@@ -572,10 +572,22 @@ def c_backend_rule(ck, mod, ks, label):
     # is evaluated once per value with the key schedule of the specification started at that word
     runs = []
     seenj_pre = set()
+    def early_returns(exq, allp):
+        # a return in front of the loop (`if (rounds == 0) return;`): no rounds, the state must be what it was
+        for p in allp:
+            if p.end[0] == "ret" and p.blocks and p.blocks[0] == 0:
+                outs0 = {(e[1], e[2]): list(e[3]) for e in p.events if e[0] == "out"}
+                same = all(k_[0] == st and 0 <= k_[1] < 16 and v_ == gf2.sym_word(("mem", st, k_[1]), 8) for k_, v_ in outs0.items())
+                okz = exq.subst(p, irx.Lf.s(("n", 1))).const() == 0
+                ck.ob(okz and same, "R-C05-STEP", fname, "return-before-loop@c32/%s" % ks, "the return in front of the loop is taken for 0 rounds only and leaves the state as it was",
+                      "a return in front of the round loop is taken with rounds = %s / changes the state" % exq.subst(p, irx.Lf.s(("n", 1))), where=where)
+                if okz and same:
+                    seenj_pre.add(0)
     ex_v = ex
     incomplete = False
     nviol0 = len(ck.violations)
     if aux:
+        early_returns(ex, paths)
         A_, a0 = aux[0][0], aux[0][1]
         todo, orbit = [a0], []
         while todo:
@@ -600,18 +612,10 @@ def c_backend_rule(ck, mod, ks, label):
         ex_v = irx.Exec(f, handler, exit_eq=xeq)
         allp = ex_v.run()
         runs.append((0, [p for p in allp if p.blocks and p.blocks[0] == hdr]))
-        # a return in front of the loop (`if (rounds == 0) return;`): no rounds, the state must be what it was
-        for p in allp:
-            if p.end[0] == "ret" and p.blocks and p.blocks[0] == 0:
-                outs0 = {(e[1], e[2]): list(e[3]) for e in p.events if e[0] == "out"}
-                same = all(k_[0] == st and 0 <= k_[1] < 16 and v_ == gf2.sym_word(("mem", st, k_[1]), 8) for k_, v_ in outs0.items())
-                okz = ex_v.subst(p, irx.Lf.s(("n", 1))).const() == 0
-                ck.ob(okz and same, "R-C05-STEP", fname, "return-before-loop@c32/%s" % ks, "the return in front of the loop is taken for 0 rounds only and leaves the state as it was",
-                      "a return in front of the round loop is taken with rounds = %s / changes the state" % ex_v.subst(p, irx.Lf.s(("n", 1))), where=where)
-                if okz and same:
-                    seenj_pre.add(0)
+        early_returns(ex_v, allp)
     else:
-        runs.append((0, [p for p in paths if p.end[0] != "loop-entry"]))
+        early_returns(ex, paths)
+        runs.append((0, [p for p in paths if p.end[0] != "loop-entry" and not (p.end[0] == "ret" and p.blocks and p.blocks[0] == 0)]))
     seenj = set(seenj_pre)
     for koff, rpaths in runs:
       tagk = "" if not aux else "{key position %d}" % koff
